@@ -33,6 +33,13 @@ def genC16Stmt (nested : Bool) : G Stmt := do
       else
         let inner ← genFlatParts 2 0
         parts := .nested h (.mk inner) :: parts
+    -- a private and a shared nested property side by side (both end up in one reference cell)
+    if nested && ps.complex.isSome && (← liftG (chance 1 3)) then
+      let i1 ← genFlatParts 2 0
+      let i2 ← genFlatParts 2 0
+      parts := .nested { sym := ps, sfx := some ['1'] } (.mk i1) :: .nested { sym := ps } (.mk i2) :: parts
+      if !(usedC.contains "1") then
+        parts := .ann { sym := cs, sfx := some ['1'] } true (.leaf (← genText)) :: parts
     -- an unrelated component so that the statement is never only the pair
     if cs.name ≠ str "I" then parts := .ann { sym := Sym.I } true (.leaf (← genText)) :: parts
     else parts := .ann { sym := Sym.A } true (.leaf (← genText)) :: parts
